@@ -132,6 +132,18 @@ def parseGoWalk (s : String) : Option (List (Bytes × Bytes) × Bytes) :=
     pure (ch, lf)
   | _ => none
 
+def showParse (r : Bytes × List (Bytes × Bytes) × MT.PErr) : String :=
+  let ps := r.2.1
+  -- Go's map: later duplicates (equal values) collapse; print sorted by key
+  let dedup := ps.foldl (fun acc p => if acc.any (fun q => q.1 == p.1) then acc else acc ++ [p]) []
+  let sorted := dedup.toArray.qsort (fun a b => bhex a.1 < bhex b.1) |>.toList
+  let kv := if sorted.isEmpty then "~" else String.intercalate "&" (sorted.map fun p => bhex p.1 ++ "=" ++ bhex p.2)
+  let cls := match r.2.2 with
+    | .none => "none" | .invalidParam => "invalidParam" | .noType => "noType" | .duplicate => "duplicate"
+  bhex r.1 ++ "|" ++ kv ++ "|" ++ cls
+
+def isAsciiBytes (b : Bytes) : Bool := b.all (· < 0x80)
+
 def chainStr (c : List Info) : String :=
   String.intercalate "," (c.map fun i => bhex i.mime ++ "|" ++ bhex i.ext)
 
@@ -284,7 +296,9 @@ def handle (line : String) : String :=
         let d3b := if shapeOk && chainStr chain != goChain then "DIFF xwalk ; SPEC C14:walk-over-extended-tree" else ""
         let d4 := if (goRes.splitOn " ").contains "EARLIER-RESULT-CHANGED" then "SPEC C14:earlier-result-changed" else ""
         let d5 := if (goRes.splitOn " ").contains "MODIFIED" then "SPEC C04:input-buffer-modified" else ""
-        let all := [d1, d2, d3, d3b, d4, d5].filter (· != "")
+        let d6 := if ((goChain.splitOn ",").getLast?.map (fun e => (e.splitOn "|").headD "")) != some (bhex mimeOctet)
+                  then "SPEC C02:chain-not-rooted-at-octet-stream" else ""
+        let all := [d1, d2, d3, d3b, d4, d5, d6].filter (· != "")
         if all.isEmpty then "OK" else String.intercalate " ; " all
       | _, _, _ => "BAD args"
     | ["xlookup", script, nm] =>
@@ -551,6 +565,87 @@ def handle (line : String) : String :=
         if ecls != "nil" then "SPEC C05:unexpected-error-class"
         else if got == a || got == b then "OK"
         else "SPEC C06:result-is-not-a-sequential-result-for-either-limit"
+      | _ => "SPEC C01:no-result(" ++ goRes ++ ")"
+    | ["fmt", th, vh] =>
+      match unhex th, unhex vh with
+      | some t, some v =>
+        let m := bhex (MT.format1 t MT.kCharset v)
+        if m == goRes then "OK" else s!"DIFF fmt model={m}"
+      | _, _ => "BAD args"
+    | ["parse", hx] =>
+      match unhex hx with
+      | some v =>
+        if !isAsciiBytes v then "SKIP non-ascii" else
+        let m := showParse (MT.parse v)
+        if m == goRes then "OK" else s!"DIFF parse model={m}"
+      | none => "BAD args"
+    | ["is", nh, sh] =>
+      match unhex nh, unhex sh with
+      | some name, some sv =>
+        if goRes == "NOLOOKUP" then "SPEC C15:registered-name-does-not-resolve" else
+        if !isAsciiBytes sv then "SKIP non-ascii" else
+        match Gen.builtin.lookup (fun i => i.mime == name || i.aliases.contains name) with
+        | none => "DIFF is model=NOLOOKUP"
+        | some path =>
+          match path.getLast? with
+          | none => "BAD path"
+          | some node =>
+            let ts := MT.typeOf sv
+            let isM := ts == MT.typeOf node.mime || node.aliases.contains ts
+            let eqM := ts == MT.typeOf name
+            let m := (if isM then "T" else "F") ++ (if eqM then "T" else "F")
+            let g := (goRes.splitOn " ").headD ""
+            let d := if m == g then "" else s!"DIFF is model={m}"
+            -- C15: the answer depends only on the normalised type of `s`
+            let sp := if (ts == node.mime || node.aliases.contains ts) && g.toList.head? != some 'T' then "SPEC C15:is-false-for-own-type-or-alias"
+                      else if !(ts == node.mime || node.aliases.contains ts) && g.toList.head? == some 'T' then "SPEC C15:is-true-for-foreign-type" else ""
+            let all := [d, sp].filter (· != "")
+            if all.isEmpty then "OK" else String.intercalate " ; " all
+      | _, _ => "BAD args"
+    | ["eqany", sh, th] =>
+      match unhex sh, unhex th with
+      | some a, some b =>
+        if !isAsciiBytes a || !isAsciiBytes b then "SKIP non-ascii" else
+        let m := if MT.typeOf a == MT.typeOf b then "T" else "F"
+        let d := if m == goRes then "" else s!"DIFF eqany model={m}"
+        let sp := if m != goRes then "SPEC C15:equalsany-not-by-normalised-type" else ""
+        let all := [d, sp].filter (· != "")
+        if all.isEmpty then "OK" else String.intercalate " ; " all
+      | _, _ => "BAD args"
+    | ["res", _hx, _lim] =>
+      match goRes.splitOn " " with
+      | [sh, pr, parents, bits] =>
+        match pr.splitOn "|" with
+        | [th, kv, cls] =>
+          let t := (unhex th).getD []
+          let registered := Gen.builtin.flatten.any (fun i => i.mime == t)
+          let three := [mimeTextPlain, mimeTextHtml, mimeTextXml]
+          let keys := if kv == "~" then [] else (kv.splitOn "&").map (fun e => (e.splitOn "=").headD "")
+          let ps := if parents == "~" then [] else parents.splitOn ","
+          let parentsClean := ps.all (fun p => match unhex p with
+            | some b => !(b.contains 0x3B) && Gen.builtin.flatten.any (fun i => i.mime == b)
+            | none => false)
+          let rooted := match ps.getLast? with
+            | some p => p == bhex mimeOctet
+            | none => sh == bhex mimeOctet
+          let c2 :=
+            if cls != "none" then "SPEC C02:result-string-does-not-parse"
+            else if !registered then "SPEC C02:result-type-not-registered"
+            else if !(keys.all (· == bhex MT.kCharset)) || keys.length > 1 then "SPEC C02:unexpected-parameter"
+            else if !keys.isEmpty && !three.contains t then "SPEC C02:charset-on-other-type"
+            else if !parentsClean then "SPEC C02:parent-chain-carries-parameters-or-unregistered-type"
+            else if !rooted then "SPEC C02:chain-not-rooted-at-octet-stream"
+            else ""
+          let b := bits.toList
+          let c15 :=
+            if b.getD 0 'F' != 'T' then "SPEC C15:result-is-not-itself"
+            else if b.getD 1 'F' != 'T' then "SPEC C15:equalsany-not-reflexive-on-result"
+            else if b.getD 2 'F' != 'T' then "SPEC C15:lookup-of-result-type-is-not-the-result"
+            else if b.getD 3 'T' != 'T' then "SPEC C15:result-does-not-know-its-aliases"
+            else ""
+          let all := [c2, c15].filter (· != "")
+          if all.isEmpty then "OK" else String.intercalate " ; " all
+        | _ => "SPEC C02:result-string-does-not-parse"
       | _ => "SPEC C01:no-result(" ++ goRes ++ ")"
     | ["treeeq"] =>
       let m := String.intercalate " " (dumpTree Gen.builtin)
